@@ -177,6 +177,11 @@ func (f *OrefaFile) Read(b []byte) (n int, err error) {
 		return 0, &fs.PathError{Op: op, Path: f.name, Err: fs.ErrClosed}
 	}
 
+	if len(b) == 0 {
+		// As os.File, reading into an empty buffer does nothing.
+		return 0, nil
+	}
+
 	nd := f.nd
 	if nd.mode.IsDir() {
 		err = avfs.ErrIsADirectory
